@@ -314,14 +314,66 @@ Definition type_ok (t : ty) (v : value) : bool :=
 Definition args_ok (ps : list param) (vs : list value) : bool :=
   Nat.eqb (List.length ps) (List.length vs) && forallb (fun pv => type_ok (fst pv).(p_ty) (snd pv)) (combine ps vs).
 
+Definition res := outcome (value * env * list event).
+
+(* one call, given the evaluator for Guppy bodies *)
+Definition call_with (tb : tables) (exec : env -> list event -> list stmt -> res)
+           (m f : string) (args : list expr) (vs : list value) (en : env) (evs : list event) : res :=
+  match lookup_fn tb m f with
+  | None => Err ("unknown function " ++ m ++ "." ++ f)
+  | Some g =>
+      if negb (args_ok g.(f_params) vs) then Err ("ill-typed call of " ++ m ++ "." ++ f) else
+      match g.(f_bind) with
+      | BSkipped w => Err ("call of unmodelled function " ++ f)
+      | BCustom c ext opn =>
+          match lookup_compiler tb c with
+          | None => Err ("unknown compiler " ++ c)
+          | Some cc => match run_wiring g ext opn cc.(c_body) [("args", vs)] evs with
+                       | Err m => Err m
+                       | Ok (reg, io, evs') => match write_back g.(f_params) args io en with
+                                               | Err m => Err m | Ok en' => Ok (pack reg, en', evs') end
+                       end
+          end
+      | BGuppy body =>
+          match bind_params g.(f_params) vs with
+          | None => Err "arity"
+          | Some cen =>
+              match exec cen evs body with
+              | Err m => Err m
+              | Ok (rv, cen', evs') =>
+                  let io := flat_map (fun p => match eget cen' p.(p_name) with Some v => [v] | None => [] end)
+                                     (borrowed g.(f_params)) in
+                  match write_back g.(f_params) args io en with
+                  | Err m => Err m | Ok en' => Ok (rv, en', evs') end
+              end
+          end
+      end
+  end.
+
+(* array(f(q) for q in arr): apply f to the elements in index order *)
+Fixpoint map_loop (callf : value -> list event -> res) (vs : list value) (evs : list event)
+  : outcome (list value * list event) :=
+  match vs with
+  | [] => Ok ([], evs)
+  | v :: r => match callf v evs with
+              | Err m' => Err m'
+              | Ok (y, _, evs1) => match map_loop callf r evs1 with
+                                   | Err m' => Err m' | Ok (ys, evs2) => Ok (y :: ys, evs2) end
+              end
+  end.
+
+(* for x in arr: body -- elements in index order *)
+Fixpoint for_loop (bodyf : env -> list event -> res) (x : string) (vs : list value) (en : env) (evs : list event)
+  : outcome (env * list event) :=
+  match vs with
+  | [] => Ok (en, evs)
+  | v :: r' => match bodyf (eset en x v) evs with
+               | Err m => Err m | Ok (_, en1, evs1) => for_loop bodyf x r' en1 evs1 end
+  end.
+
 Section Interp.
   Variable tb : tables.
 
-  (* result of evaluating an expression: value, caller env (places may be rewritten), events *)
-  Definition res := outcome (value * env * list event).
-
-  (* [call_fn] is defined below by recursion on fuel; expression evaluation is by recursion on fuel too
-     (every sub-expression costs one unit), so a single fuel parameter bounds depth, never length. *)
   Fixpoint eval_expr (fuel : nat) (en : env) (evs : list event) (e : expr) {struct fuel} : res :=
     match fuel with O => Err "out of fuel" | S fuel' =>
     let eval_args := fix go (en : env) (evs : list event) (es : list expr) : outcome (list value * env * list event) :=
@@ -333,37 +385,7 @@ Section Interp.
                                            | Err m => Err m | Ok (vs, en2, evs2) => Ok (v :: vs, en2, evs2) end
                     end
         end in
-    let call := fun (m f : string) (args : list expr) (vs : list value) (en : env) (evs : list event) =>
-        match lookup_fn tb m f with
-        | None => Err ("unknown function " ++ m ++ "." ++ f)
-        | Some g =>
-            if negb (args_ok g.(f_params) vs) then Err ("ill-typed call of " ++ m ++ "." ++ f) else
-            match g.(f_bind) with
-            | BSkipped w => Err ("call of unmodelled function " ++ f)
-            | BCustom c ext opn =>
-                match lookup_compiler tb c with
-                | None => Err ("unknown compiler " ++ c)
-                | Some cc => match run_wiring g ext opn cc.(c_body) [("args", vs)] evs with
-                             | Err m => Err m
-                             | Ok (reg, io, evs') => match write_back g.(f_params) args io en with
-                                                     | Err m => Err m | Ok en' => Ok (pack reg, en', evs') end
-                             end
-                end
-            | BGuppy body =>
-                match bind_params g.(f_params) vs with
-                | None => Err "arity"
-                | Some cen =>
-                    match exec_stmts fuel' cen evs body with
-                    | Err m => Err m
-                    | Ok (rv, cen', evs') =>
-                        let io := flat_map (fun p => match eget cen' p.(p_name) with Some v => [v] | None => [] end)
-                                           (borrowed g.(f_params)) in
-                        match write_back g.(f_params) args io en with
-                        | Err m => Err m | Ok en' => Ok (rv, en', evs') end
-                    end
-                end
-            end
-        end in
+    let call := call_with tb (exec_stmts fuel') in
     match e with
     | EVar x => match eget en x with Some v => Ok (v, en, evs) | None => Err ("unbound variable " ++ x) end
     | EPi => Ok (VAng (FConst tb.(t_pi_halfturns)), en, evs)
@@ -400,14 +422,7 @@ Section Interp.
     | EMapArr m f arr =>
         match eget en arr with
         | Some (VArr vs) =>
-            match (fix go (vs : list value) (evs : list event) : outcome (list value * list event) :=
-               match vs with
-               | [] => Ok ([], evs)
-               | v :: r => match call m f [EVar "%elem"] [v] [("%elem", v)] evs with
-                           | Err m' => Err m'
-                           | Ok (y, _, evs1) => match go r evs1 with Err m' => Err m' | Ok (ys, evs2) => Ok (y :: ys, evs2) end
-                           end
-               end) vs evs with
+            match map_loop (fun v evs => call m f [EVar "%elem"] [v] [("%elem", v)] evs) vs evs with
             | Err m' => Err m'
             | Ok (ys, evs') => Ok (VArr ys, eset en arr VUnit, evs') end
         | _ => Err "comprehension over a non-array" end
@@ -429,12 +444,7 @@ Section Interp.
     | SFor x arr body :: r =>
         match eget en arr with
         | Some (VArr vs) =>
-            match (fix loop (vs : list value) (en : env) (evs : list event) : outcome (env * list event) :=
-                     match vs with
-                     | [] => Ok (en, evs)
-                     | v :: r' => match exec_stmts fuel' (eset en x v) evs body with
-                                  | Err m => Err m | Ok (_, en1, evs1) => loop r' en1 evs1 end
-                     end) vs (eset en arr VUnit) evs with
+            match for_loop (fun en evs => exec_stmts fuel' en evs body) x vs (eset en arr VUnit) evs with
             | Err m => Err m | Ok (en1, evs1) => go r en1 evs1 end
         | _ => Err "for over a non-array" end
     end) ss en evs end.
